@@ -171,6 +171,45 @@ def nests(ctx, depths, ref_max=2000):
     return out
 
 
+def honoured_counts(ctx, n):
+    """Count fields that do NOT exceed their limit, next to sizeable real data: a polygon whose first ring has 40-400 points
+    and whose ring count claims up to the level-2 limit; a multi-geometry whose first member is sizeable and whose member
+    count claims up to the level-3 limit; a line whose point count claims the level-1 limit. Nothing here may be rejected
+    as too large - but the memory must stay "bounded by the input length plus the configured limits": a reservation of
+    count x (size of the first element) is a product. Marked noref (kilobyte-sized inputs): totality, well-formedness,
+    stability and the memory bound are demanded; the limits are 1024-4096 per level."""
+    rnd = random.Random(ctx.seed * 7919 + 11)
+    out = []
+    for _ in range(n):
+        flavor = rnd.choice(["wkb", "ewkb"])
+        xdr = rnd.random() < 0.5
+        dim = rnd.choice([0, 0, 1, 3])
+        stride = {0: 2, 1: 3, 2: 3, 3: 4}[dim]
+        o = [0 if xdr else 1]
+        lim = [rnd.choice([1024, 4096]) for _ in range(3)]
+
+        def pts(k):
+            b = u32(k, xdr)
+            for _ in range(k * stride):
+                b += [64, rnd.randrange(256), 0, 0, 0, 0, 0, 0] if xdr else [0, 0, 0, 0, 0, 0, rnd.randrange(256), 64]
+            return b
+        big = rnd.choice([40, 100, 400])
+        kind = rnd.choice(["rings", "rings", "members", "points"])
+        if kind == "rings":                       # POLYGON: ring count forged, first ring real, then the input ends (or one more ring)
+            b = o + type_word(3, dim, False, flavor, xdr) + u32(rnd.choice([lim[1], lim[1] - 1, lim[1] // 2]), xdr) + pts(big)
+            if rnd.random() < 0.5:
+                b += pts(4)
+        elif kind == "members":                   # MULTIPOLYGON: member count forged, first member a real polygon with one big ring
+            b = o + type_word(6, dim, False, flavor, xdr) + u32(rnd.choice([lim[2], lim[2] // 2]), xdr)
+            b += o + type_word(3, dim, False, flavor, xdr) + u32(1, xdr) + pts(big)
+        else:                                     # LINESTRING: point count forged to the limit, 3 real points
+            b = o + type_word(2, dim, False, flavor, xdr) + u32(lim[0], xdr) + pts(3)[4:]
+        via = rnd.choice(["", "", "hex", "sql"])
+        out.append(dict(bytes=b, flavor=flavor, nan=False, lim=lim, via=via, noref=True,
+                        wrap=guess_wrap(b, flavor, rnd) if via == "sql" else "", hexcodes=[]))
+    return out
+
+
 def domain_pass(ctx, cands):
     """TLC (WKBDecObs!NextDom) evaluates the reference decoder with all limits off on every candidate and reports the
     largest count field it meets: the property's domain with a limit disabled is 'counts backed by actual input'."""
@@ -232,7 +271,7 @@ def run(ctx, verdict):
     bases = sorted(outb["BASE"], key=vlib.digest)
     if not bases:
         raise vlib.Infra("no valid encodings from WKBMut_base.cfg")
-    extra = seeded(ctx, bases)
+    extra = seeded(ctx, bases) + honoured_counts(ctx, 60 if ctx.quick else 2000)
     cases = sorted(cases + extra, key=vlib.digest)
     vlib.note_cases(ctx, cases, nontrivial=lambda c: len(c["bytes"]) > 5 or len(c["hexcodes"]) > 10)
     ctx.coverage_extra["model_a"] = [dict(cfg=cfg, cases=len(out["CASE"]), states=r["distinct"]),
